@@ -317,7 +317,10 @@ def generate(repo: str):
          f"    {ch(jf['replace'][0])} {ch(jf['replace'][1])}",
          "    " + listlit([strlit(x) for x in jf["left_only"]]),
          f"    {strlit(jf['cross_eq'])} {strlit(jf['full_eq'])} {strlit(right)} {'true' if jf['norm'] else 'false'} "
-         f"{'true' if jf.get('none_eq') else 'false'}."]
+         f"{'true' if jf.get('none_eq') else 'false'}.",
+         "(* facts the harness uses when it observes the lineage of a case (not parameters of the model) *)",
+         f"Definition gen_self_join_exact : bool := {'true' if exact else 'false'}.",
+         f"Definition gen_rename_in_place : bool := {'true' if in_place else 'false'}."]
     facts = [
         {"name": "JOIN_TYPE_MAPPING", "from": "dataframe.py (module level)", "hash": py2v.src_hash(m_node, src), "value": dict(m)},
         {"name": "cross test, on is None", "from": "dataframe.py: join", "value": list(jf["none"])},
